@@ -26,7 +26,7 @@ for d in sorted(os.listdir(os.path.join(V, 'seeded'))):
             args += ['--unit', u]
         out = subprocess.run(args, env=dict(os.environ, VERIF_REPO=tmp), stdout=subprocess.PIPE, stderr=subprocess.STDOUT, text=True).stdout
         failed = [l.strip() for l in out.splitlines() if l.strip().startswith('FAILED')]
-        undecided = 'check_result' in meta and 'NOT DECIDED' in meta['check_result']
+        undecided = 'check_result' in meta and ('NOT DECIDED' in meta['check_result'] or 'full check flow only' in meta['check_result'])
         print('%-8s %s: %s' % (d, 'caught' if failed else ('undecided (documented)' if undecided else 'MISSED'), '; '.join(f.split(' [')[0].replace('FAILED ', '') for f in failed[:4])))
         ok = ok and (bool(failed) or undecided)
     finally:
